@@ -405,3 +405,19 @@ fn public_from_private(sk: &U256) -> Sm2Result<Sm2PublicKey> {
         Err(Sm2Error::InvalidPublic)
     }
 }
+
+/// Verification hooks (compiled only with `--cfg gm_rs_verif`): the digest-level entry points, so that a
+/// monitor can choose e and reach the retry / rejection branches that no message hashes to.
+#[cfg(gm_rs_verif)]
+impl Sm2PrivateKey {
+    pub fn verif_sign_digest(&self, digest: &[u8]) -> Sm2Result<Vec<u8>> {
+        self.sign_raw(digest, &self.d)
+    }
+}
+
+#[cfg(gm_rs_verif)]
+impl Sm2PublicKey {
+    pub fn verif_verify_digest(&self, digest: &[u8], sig: &[u8]) -> Sm2Result<()> {
+        self.verify_raw(digest, &self.point, sig)
+    }
+}
